@@ -27,7 +27,6 @@ import (
 	sw "github.com/nspcc-dev/neofs-node/verif/worlds/svcworld"
 	apistatus "github.com/nspcc-dev/neofs-sdk-go/client/status"
 	protostatus "github.com/nspcc-dev/neofs-sdk-go/proto/status"
-	grpccodes "google.golang.org/grpc/codes"
 	grpcstatus "google.golang.org/grpc/status"
 )
 
@@ -150,6 +149,8 @@ func main() {
 	classes := map[string]int{}
 	controls := map[string]string{}
 	removed := map[string]bool{}
+	vacuous := map[string]string{}
+	perMethod := map[string]int{}
 
 	check := func(c tcase) {
 		r.Eval(1)
@@ -168,7 +169,21 @@ func main() {
 			cls = "[" + c.Shape + "]"
 		}
 		unimplemented := ctl.Status == "grpc:Unimplemented" && len(ctl.Effects) == 0
+		midStream := c.Shape == "maintenance-starts-before-chunk"
+		if midStream {
+			// the init message is served before maintenance starts (its effects are legitimate); the
+			// chunk must be refused and the object must not reach the storage or another node
+			var bad []string
+			for _, e := range got.Effects {
+				if strings.HasPrefix(e, "net:") || e == "storage:Put" {
+					bad = append(bad, e)
+				}
+			}
+			got.Effects = bad
+		}
 		switch {
+		case midStream && len(ctl.Effects) == 0 && len(got.Effects) == 0 && len(got.TreeDiff) == 0:
+			// init refused for another reason before the chunk was looked at: nothing to refuse
 		case len(got.Effects) > 0:
 			kind := "storage"
 			if strings.Contains(strings.Join(got.Effects, " "), "net:") {
@@ -195,14 +210,21 @@ func main() {
 		controls[c.String()] = ctl.Status + " " + effectClasses(ctl.Effects)
 		mu.Unlock()
 		if !unimplemented {
-			if len(ctl.Effects) == 0 {
-				// the control must show that the recorders see this operation, otherwise the case is vacuous
-				r.Fatal("%s: control run (maintenance off) produced no storage/network effect: status=%s %q — harness cannot observe this operation",
-					c, ctl.Status, ctl.Detail)
-			}
-			if c.LocalIn && c.Shape != "maintenance-starts-before-chunk" && ctl.Status != "OK" {
+			// status 1 = INCOMPLETE: the local part succeeded, the other container node is unreachable (no network)
+			if c.LocalIn && c.Shape != "maintenance-starts-before-chunk" && ctl.Status != "OK" && ctl.Status != "status:1" {
 				r.Fatal("%s: control run (maintenance off, node in container) is not OK: %s %q", c, ctl.Status, ctl.Detail)
 			}
+			if len(ctl.Effects) == 0 {
+				// e.g. a local-only PUT/DELETE on a node outside the container is refused before any effect
+				// even without maintenance: the case is still checked, but it is not counted as non-trivial
+				mu.Lock()
+				vacuous[c.String()] = ctl.Status + " " + ctl.Detail
+				mu.Unlock()
+				return
+			}
+			mu.Lock()
+			perMethod[c.Method]++
+			mu.Unlock()
 			r.Nontrivial(c.String())
 			r.Sample(map[string]any{"case": c.String(), "maintenance_on": got.Status, "maintenance_off": ctl.Status, "maintenance_off_effects": effectClasses(ctl.Effects)})
 		}
@@ -272,9 +294,6 @@ func main() {
 			for _, who := range []string{sw.Owner, sw.Stranger} {
 				for _, ttl := range []uint32{1, 2} {
 					for _, in := range []bool{true, false} {
-						if ttl == 1 && !in && m == "Put" {
-							continue // local-only PUT on a node outside the container is refused before any effect: no control possible
-						}
 						cases = append(cases, tcase{Method: m, Shape: sh, Requester: who, TTL: ttl, LocalIn: in})
 					}
 				}
@@ -286,6 +305,11 @@ func main() {
 		checkReplicate(m)
 	}
 
+	for _, m := range methods {
+		if !notClientOps[m] && !removed[m] && perMethod[m] == 0 {
+			r.Fatal("no case of method %s has a control run (maintenance off) with a storage/network effect: the harness cannot observe this operation (new RPC needs a request builder in worlds/svcworld?)", m)
+		}
+	}
 	var rm []string
 	for m := range removed {
 		rm = append(rm, m)
@@ -297,6 +321,8 @@ func main() {
 	r.Set("outcome_classes", len(classes))
 	r.Set("outcome_class_counts", classes)
 	r.Set("controls_maintenance_off", controls)
+	r.Set("cases_without_effect_even_without_maintenance", vacuous)
+	r.Set("nontrivial_cases_per_method", perMethod)
 	r.Rule("every exported method of protoobject.ObjectServiceServer (reflection) except Replicate x request shape x requester {owner,stranger} x TTL {1,2} x local node {inside,outside} the container; non-trivial = the same request with maintenance off produced a storage or network effect (checked, otherwise harness error); distinct = distinct case tuple")
 	r.Assume("effects are observed at the engine method entries (overlay hook, pure recorder), at the client-constructor / replication transport (network) and as byte-level changes of the engine directory",
 		"FS chain reads (container, netmap, maintenance flag) are not counted as touching local storage or other nodes",
